@@ -212,6 +212,36 @@ mod harness {
         forget(scb);
     }
 
+    /// C17/C11: sub-second precision takes part in equality and ordering (two instants within a few seconds of each other, any nanosecond)
+    #[kani::proof]
+    fn c17_datetime_order_subsecond() {
+        use liquid_core::model::DateTime;
+        let base = DateTime::from_ymd(2020, 6, 15);
+        let oa: i8 = kani::any();
+        let ob: i8 = kani::any();
+        kani::assume(oa >= -12 && oa <= 14 && ob >= -12 && ob <= 14);
+        let sa: i32 = kani::any();
+        let sb: i32 = kani::any();
+        kani::assume(sa >= -2 && sa <= 2 && sb >= -2 && sb <= 2);
+        let na: i32 = kani::any();
+        let nb: i32 = kani::any();
+        kani::assume(na >= 0 && na <= 999_999_999 && nb >= 0 && nb <= 999_999_999);
+        let ta = *base + time::Duration::seconds(sa as i64) + time::Duration::nanoseconds(na as i64);
+        let tb = *base + time::Duration::seconds(sb as i64) + time::Duration::nanoseconds(nb as i64);
+        let mut a = base;
+        *a = ta.to_offset(time::UtcOffset::from_hms(oa, 0, 0).unwrap());
+        let mut b = base;
+        *b = tb.to_offset(time::UtcOffset::from_hms(ob, 0, 0).unwrap());
+        let sca = ScalarCow::new(a);
+        let scb = ScalarCow::new(b);
+        let same = sa == sb && na == nb;
+        assert!((sca == scb) == same, "date-times are equal exactly when they denote the same instant, to the nanosecond");
+        assert!(sca.partial_cmp(&scb) == (sa, na).partial_cmp(&(sb, nb)), "date-time ordering must be chronological to the nanosecond");
+        kani::cover!(sa == sb && na != nb);
+        forget(sca);
+        forget(scb);
+    }
+
     // ------------------------------------------------------------------ C11: laws on the date kinds (date-time x date-time, date x date-time)
     fn check_laws(a: &ScalarCow<'static>, b: &ScalarCow<'static>) {
         let ab = a == b;
